@@ -34,7 +34,7 @@ NP_RE = re.compile(r"""^\$(?:\[(?:0|[1-9][0-9]*)\]|\['(?:[\x20-\x26\x28-\x5b\x5d
 
 def plan(tier, seed):
     n = 15 if tier == "quick" else 46
-    return [{"kind": "w0"}, {"kind": "scale"}] + [{"n": 500 if tier == "quick" else 10000, "profile": ["unique", "mixed"][i % 2]} for i in range(n)]
+    return [{"kind": "w0"}, {"kind": "scale"}, {"kind": "threads", "rounds": 5 if tier == "quick" else 30}] + [{"n": 500 if tier == "quick" else 10000, "profile": ["unique", "mixed"][i % 2]} for i in range(n)]
 
 
 def install():
@@ -231,8 +231,58 @@ def run_w0(ctx, only=None):
         ctx.violation("W0:H2-local-location-invariant-under-the-repository's-own-tests", {"w0_test": v["test"]}, v)
 
 
+def run_threads(ctx, rounds):
+    """8 threads evaluate shared compiled queries at once, each over its own array of distinct objects; the arrays are
+    longer in every round, so that indices the process has never produced before are produced concurrently (yields
+    injected at statement starts in selectors.py / serialize.py / match.py).  Every match: path is the normalized path
+    of its parts, and the parts lead to the matched object in that thread's own document."""
+    import jsonpath
+
+    from rt.threads import stress
+
+    r = ctx.rng
+    qs = [jsonpath.compile(t) for t in ("$[*]", "$[-1]", "$.*[0]", "$[?@.id >= 0]", "$..[0]", "$[1::7]")]
+    size = 40
+    for rnd in range(rounds):
+        size = int(size * r.choice([1.7, 2.3, 3.1])) + r.randint(1, 9)
+        errors = []
+        checked = [0]
+
+        def worker(wid, rr):
+            n = size + wid
+            doc = [{"id": i, "w": wid} for i in range(n)]
+            for q in rr.sample(qs, 3):
+                for m in q.finditer(doc):
+                    parts = tuple(m.parts)
+                    checked[0] += 1
+                    cur = doc
+                    try:
+                        for p_ in parts:
+                            cur = cur[p_]
+                    except Exception as e:  # noqa: BLE001
+                        cur = e
+                    if m.path != normalized_path(parts) or cur is not m.obj:
+                        errors.append({"query": str(q), "parts": list(parts), "path": m.path, "expected_path": normalized_path(parts), "thread": wid, "array_length": n})
+                        return
+
+        st = stress(worker, nthreads=8, files=("selectors.py", "serialize.py", "match.py", "path.py"), seed=r.random(), prob=0.01)
+        ctx.evaluation(checked[0])
+        ctx.count("matches_checked_under_threads", checked[0])
+        ctx.count("yields_injected", st["yields"])
+        ctx.count("thread_switches_at_yield_points", st["switches"])
+        ctx.cell("thread_interleaving_signatures", st["signature"])
+        ctx.cell("thread_round_array_lengths", "about %d" % (10 ** len(str(size))))
+        for e in errors[:2]:
+            ctx.violation("match-location-wrong-under-concurrent-evaluations", {"kind": "threads"}, e)
+        if errors or size > 60000:
+            return
+
+
 def run(spec, ctx):
     install()
+    if spec.get("kind") == "threads":
+        run_threads(ctx, spec["rounds"])
+        return
     if spec.get("kind") == "w0":
         run_w0(ctx)
         return
@@ -291,5 +341,8 @@ def replay(case, ctx):
     install()
     if "w0_test" in case:
         run_w0(ctx, only=case["w0_test"])
+        return
+    if case.get("kind") == "threads":
+        run_threads(ctx, 12)
         return
     check_case(ctx, case["text"], case["doc"], case.get("class", "replay"), exotic_seed=case.get("exotic_seed"))
